@@ -42,7 +42,11 @@ def run(tier, seed):
     import scen_common
     specs = [("mu_mix", {}, 3000, 60000), ("cv_mix", {"VRT_MODE": 0}, 1500, 30000), ("cv_mix", {"VRT_MODE": 1}, 1000, 30000),
              ("cv_mix", {"VRT_MODE": 2}, 1500, 30000), ("muwait_mix", {}, 1500, 30000), ("waitn_mix", {}, 2500, 40000),
-             ("mu_mix", {}, 1000, 20000, "binary"), ("cv_mix", {}, 1000, 20000, "binary"), ("muwait_mix", {}, 700, 15000, "binary")]
+             ("mu_mix", {}, 1000, 20000, "binary"), ("cv_mix", {}, 1000, 20000, "binary"), ("muwait_mix", {}, 700, 15000, "binary"),
+             # re-acquisition on return from nsync_wait_n (MODE 3), from a cv wait whose wake-up races deadline and cancellation (MODE 4),
+             # through the generic entry point with caller-supplied lock callbacks and from reader-mode timed / cancellable cv waits (MODE 5, 6)
+             ("cv_mix", {"VRT_MODE": 3}, 1000, 20000), ("cv_mix", {"VRT_MODE": 4}, 1000, 20000), ("cv_mix", {"VRT_MODE": 5}, 1000, 20000),
+             ("cv_mix", {"VRT_MODE": 6}, 1500, 30000), ("cv_mix", {"VRT_MODE": 6}, 600, 12000, "binary"), ("cancel_mix", {}, 1000, 20000)]
     oc = scen_common.run_scenarios(res, specs, tier, seed, {"C01"} | scen_common.LIVENESS | scen_common.CRASHES)
     nrun = oc["evaluations"]
     agg = oc["sched_stats"]
